@@ -92,5 +92,5 @@ CaseE(P) ==
       expect |-> <<[inj |-> "Inject", verdict |-> IF mr THEN "no" ELSE "free",
                     reasons |-> IF mr THEN {RejectReason(v.e, v.home, v.marker)} ELSE {},
                     ambiguous |-> {}, cyclic |-> {}, missing |-> {}, unused |-> {}, funcs |-> {}, wiring |-> [t \in {} |-> 0], scheds |-> <<>>]>>,
-      alloc |-> v.e.alloc]
+      alloc |-> v.e.alloc, invalidsets |-> {}]
 =============================================================================
